@@ -271,3 +271,20 @@ def order(a, b, c):
 
 def is_heap_marker(reg):
     return reg.ufun("is_heap_marker", z3.SeqSort(S.tuple_sort(ENT)), z3.BoolSort())
+
+
+_load_el0 = load
+
+
+def load(reg):      # noqa: F811
+    _load_el0(reg)
+
+    # bounded stand-in: the contracts model every clock as a real number; int clocks beyond 2^53 (where float(t) is no longer
+    # injective) and Duration clocks (Quantity comparisons) are swept natively against a sorted-set reference
+    def clock_sweep(table):
+        from pyvc.ground import run_native
+        res = run_native({"function": "EventListHeap.add", "obligation": "bounded-sweep-clocks", "property": "C01"})
+        return [("BOUNDED: 900 random add/remove/pop/peek/contains/clear histories with int times beyond 2^53, Duration times in mixed "
+                 "units, small int and float times: size, membership, peek/pop and drain order equal the sorted-set reference",
+                 not res.get("reproduced"), res.get("observed") or res.get("note"))]
+    reg.ground_obligation("BOUNDED stand-in: native event-list sweep over clock types (huge int, Duration)", ["C01", "C02"], clock_sweep)
